@@ -442,3 +442,44 @@ pub fn pwhash_str_needs_rehash(s: &str, ops: u64, mem: usize) -> Option<bool> {
         _ => None,
     }
 }
+
+// ---- Edwards25519 group / scalar helpers (libsodium's core API), used to build signatures
+// ---- with torsion components
+
+pub fn ed_add(p: &[u8; 32], q: &[u8; 32]) -> Option<[u8; 32]> {
+    let mut r = [0u8; 32];
+    let rc = unsafe { so::crypto_core_ed25519_add(r.as_mut_ptr(), p.as_ptr(), q.as_ptr()) };
+    if rc == 0 {
+        Some(r)
+    } else {
+        None
+    }
+}
+
+pub fn ed_base_noclamp(s: &[u8; 32]) -> Option<[u8; 32]> {
+    let mut r = [0u8; 32];
+    let rc = unsafe { so::crypto_scalarmult_ed25519_base_noclamp(r.as_mut_ptr(), s.as_ptr()) };
+    if rc == 0 {
+        Some(r)
+    } else {
+        None
+    }
+}
+
+pub fn sc_reduce64(h: &[u8; 64]) -> [u8; 32] {
+    let mut r = [0u8; 32];
+    unsafe { so::crypto_core_ed25519_scalar_reduce(r.as_mut_ptr(), h.as_ptr()) };
+    r
+}
+
+pub fn sc_mul(a: &[u8; 32], b: &[u8; 32]) -> [u8; 32] {
+    let mut r = [0u8; 32];
+    unsafe { so::crypto_core_ed25519_scalar_mul(r.as_mut_ptr(), a.as_ptr(), b.as_ptr()) };
+    r
+}
+
+pub fn sc_add(a: &[u8; 32], b: &[u8; 32]) -> [u8; 32] {
+    let mut r = [0u8; 32];
+    unsafe { so::crypto_core_ed25519_scalar_add(r.as_mut_ptr(), a.as_ptr(), b.as_ptr()) };
+    r
+}
